@@ -56,7 +56,7 @@ _ALL = {
         technique="null-code preservation (taint + idiom table), fact-walker dominance, route table",
     ),
     "C03": dict(
-        want=["M1", "M2", "M3", "M4", "M5", "D2", "D6b", "D9", "S2", "K2", "M6", "P7b"],
+        want=["M1", "M2", "M3", "M4", "M5", "D2", "D6b", "D9", "S2", "K2", "M6", "P7b", "P18"],
         explanation=("Decides the structural causes of strategy dependence: every merge of partial results receives the "
                      "accumulated count (M1) which is updated after the merge (M2); parallel_map places results by submission "
                      "index (M3); all row-aligned arrays are split by one splitter (M4); pointer lookups are offset by the "
@@ -99,7 +99,7 @@ _ALL = {
         technique="fact-walker dominance over inferred code variables; null-preservation idiom table",
     ),
     "C07": dict(
-        want=["P5", "P6", "S2", "P11", "P2", "D2", "D6b", "K2", "P12"],
+        want=["P5", "P6", "S2", "P11", "P2", "D2", "D6b", "K2", "P12", "P5b"],
         explanation=("Decides that transform indexes code-ordered arrays only: the base of every subscript indexed by the row "
                      "codes carries no sort-permutation taint (P5), has a null slot (P6), is indexed after unification (S2), "
                      "and the transform path restores the input's index/container (P11)."),
@@ -135,7 +135,7 @@ _ALL = {
         technique="fact walker; expression normal-form comparison; decorator-name rule",
     ),
     "C11": dict(
-        want=["P4", "P9", "P7b", "P11b", "P13", "M5"],
+        want=["P4", "P9", "P7b", "P11b", "P13", "M5", "P5b"],
         explanation=("Decides two structural necessary conditions: the sort permutation derived from the labels reaches the "
                      "result and count frames on every non-transform path (P4); key names are assigned on every constructing "
                      "path (P9)."),
@@ -143,7 +143,7 @@ _ALL = {
         technique="path rules over _apply_gb_reduction / __init__",
     ),
     "C12": dict(
-        want=["P1", "T2", "T3", "K5", "P10", "K4b", "P12", "F1b", "P7b", "M7"],
+        want=["P1", "T2", "T3", "K5", "P10", "K4b", "P12", "F1b", "P7b", "M7", "P17"],
         explanation=("Decides the dtype/exactness clauses: temporal cast<->restore pairing on all paths (P1); selection "
                      "reducers never do arithmetic on values (T2-L4); accumulator dtype table (T3); dtype provenance in "
                      "rolling selection paths (K5); unit-preserving restoration (P10)."),
@@ -168,14 +168,14 @@ _ALL = {
         technique="link check; path rule; table; forwarding rule",
     ),
     "C15": dict(
-        want=["K4@rowsel", "K1@rowsel", "A1"],
+        want=["K4@rowsel", "K1@rowsel", "A1", "R1", "P17"],
         explanation=("Decides the stated failure modes: per-group row counters are wide enough (K4); null-key rows are never "
                      "selected (K1); selection inputs are validated against the keys (A1)."),
         not_decided=["that the scan picks the n-th occurrence (seen[k] == n arithmetic)", "index restoration"],
         technique="allocation-width rule; fact walker; must-validate",
     ),
     "C16": dict(
-        want=["A3c", "D7"],
+        want=["A3c", "D7", "P5b", "P20"],
         explanation=("Decides composition consistency: composites forward every semantic parameter to the primitives they are "
                      "defined by (A3c); var uses the three primitives with one shared keyword set and std delegates to var (D7)."),
         not_decided=["variance accuracy, quantile equality with NumPy, apply semantics, densities summing to 100"],
@@ -205,7 +205,7 @@ _ALL = {
         technique="interprocedural mod/ref + freshness analysis",
     ),
     "C20": dict(
-        want=["T1b", "D5", "P1", "N1"],
+        want=["T1b", "D5", "P1", "N1", "P18", "P19"],
         explanation=("Decides the structure of the stand-alone reducers: binary reducer tables (T1b); reducer name -> (initial "
                      "value, chunk-combine reducer) table and null-skipping combine stage (D5); view/convert pairing in "
                      "reduce_1d (P1); null-skip shape of the chunk reducer (N1)."),
